@@ -24,7 +24,7 @@ IT_CFG = {
     'bodies_prelude': '#define C02_DWIT 1\n#include "dw_model2.h"\n',
     'extern': {'__assert_fail': 'verif_assert_fail_libc', 'abort': 'verif_abort',
                r'dwarf_child': 'm_dwarf_child', r'dwarf_siblingof': 'm_dwarf_siblingof', r'dwarf_offdie': 'm_dwarf_offdie',
-               r'dwarf_dieoffset': 'm_dwarf_dieoffset', r'dwarf_nextcu': 'm_dwarf_nextcu', r'dwarf_cuoffset': 'm_dwarf_cuoffset',
+               r'dwarf_dieoffset': 'm_dwarf_dieoffset', r'dwarf_haschildren': 'm_dwarf_haschildren', r'dwarf_nextcu': 'm_dwarf_nextcu', r'dwarf_cuoffset': 'm_dwarf_cuoffset',
                r'throw_libdw.*': 'm_throw_libdw',
                VOFF + r'::push_back': 'vec_off_push_back', VOFF + r'::back': 'VEC_OFF_BACK', VOFF + r'::pop_back': 'vec_off_pop_back',
                VOFF + r'::empty': 'VEC_OFF_EMPTY', VOFF + r'::size': 'VEC_OFF_SIZE', r'std::operator==\|.*vector.*': 'vec_off_eq'},
@@ -43,7 +43,7 @@ PC_CFG = {
     'bodies_prelude': '#include "dw_model2.h"\n',
     'extern': {'__assert_fail': 'verif_assert_fail_libc', 'abort': 'verif_abort',
                r'dwarf_child': 'm_dwarf_child', r'dwarf_siblingof': 'm_dwarf_siblingof', r'dwarf_offdie': 'm_dwarf_offdie',
-               r'dwarf_dieoffset': 'm_dwarf_dieoffset', r'throw_libdw.*': 'm_throw_libdw',
+               r'dwarf_dieoffset': 'm_dwarf_dieoffset', r'dwarf_haschildren': 'm_dwarf_haschildren', r'throw_libdw.*': 'm_throw_libdw',
                VPAIR + r'::push_back': 'vec_pair_push_back', r'std::make_pair': 'make_offpair'},
 }
 PC_ROOTS = ['parent_cache::populate_unit']
